@@ -53,3 +53,10 @@ type Opt[T ~int64] struct {
 	Id T
 	Ok bool
 }
+
+// Layer holds a union and is declared outside the analysed file: it is only
+// reached through anonymous containers of Drawing.
+type Layer struct {
+	Name string
+	Top  Shape
+}
